@@ -216,4 +216,38 @@ def run_name_first(prog, rep):
         if seen != {'name', 'id', 'none'}:
             probs.append('paths do not cover name / id fall-back / nothing (%s)' % sorted(seen))
         rule.check(not probs, q.split('::')[-1], rep.where(f), f.label(), 'link of that name first, then id-shaped values by attribute, else nothing', '; '.join(sorted(set(probs))[:2]))
+    # BlockHDF5::findEntityGroup: whatever string the identity carries (a name, or an id-shaped string that may be a name) is probed as a link first
+    f = prog.fn('nix::hdf5::BlockHDF5::findEntityGroup')
+    it = GenericInterp(prog, watch=lambda n: (n.callee or {}).get('name') in ('openGroup', 'findGroupByAttribute', 'hasObject'))
+    res = it.enumerate(f, this='THIS', args=[('ident',)])
+    NAME, ID = ('call', 'name', ('ident',)), ('call', 'id', ('ident',))
+    probs = []
+    npaths = 0
+    for assign, out, log, fields in res:
+        if out[0] != 'ret':
+            continue
+        have_p = [v for k, v in assign.items() if k[0] == 'truthy' and 'groupForObjectType' in repr(k)]
+        if not have_p or not have_p[0]:
+            continue
+        ne = assign.get(('bool', 'empty', NAME))
+        ie = assign.get(('bool', 'empty', ID))
+        if ne is None and ie is None:
+            continue
+        if ne is not False and ie is not False:
+            continue   # nothing to look up
+        npaths += 1
+        want = NAME if ne is False else ID
+        probed = [l for l in log if l[0] == 'hasObject' and l[-1] == want]
+        if not probed:
+            probs.append('an identity that carries %s is resolved without probing the link of that name (%s): an entity whose name has the shape of an id is invisible to has/get/duplicate tests' % (
+                'a name' if want == NAME else 'only an id-shaped string', [l[0] for l in log] or 'no lookup'))
+            continue
+        found = [v for k, v in assign.items() if k[0] == 'bool' and k[1] == 'hasObject']
+        if found and found[0]:
+            og = [l for l in log if l[0] == 'openGroup']
+            if not og or og[0][2] != want:
+                probs.append('the link exists but %s is opened' % (og[0][2:] if og else 'nothing'))
+    if npaths < 4:
+        probs.append('only %d abstract lookup paths' % npaths)
+    rule.check(not probs, 'BlockHDF5::findEntityGroup', rep.where(f), f.label(), 'the identity string is probed as a link name on every lookup path (%d paths)' % npaths, '; '.join(sorted(set(probs))[:2]))
     return rule
